@@ -197,18 +197,18 @@ func TestVerifC11Silences(t *testing.T) {
 			where := fmt.Sprintf("%s; files %v; snapshot %d must be visible", im.Desc, names, im.Renames)
 			switch {
 			case pan != nil:
-				R.Violate("loader-panics-on-crash-image", fmt.Sprintf("%v; %s", pan, where), map[string]any{"part": "silences-crash", "desc": where})
+				R.Violate("loader-panics-on-crash-image", fmt.Sprintf("%v; %s", pan, where), map[string]any{"rerun": true, "part": "silences-crash", "desc": where})
 			case err != nil:
-				R.Violate("refuses-to-start-after-crash", fmt.Sprintf("loader error %q; %s", err, where), map[string]any{"part": "silences-crash", "desc": where})
+				R.Violate("refuses-to-start-after-crash", fmt.Sprintf("loader error %q; %s", err, where), map[string]any{"rerun": true, "part": "silences-crash", "desc": where})
 			case got != want:
-				R.Violate("torn-or-wrong-state-after-crash", fmt.Sprintf("loaded state (%d bytes) is not the state captured by snapshot %d (%d bytes); %s", len(got), im.Renames, len(want), where), map[string]any{"part": "silences-crash", "desc": where})
+				R.Violate("torn-or-wrong-state-after-crash", fmt.Sprintf("loaded state (%d bytes) is not the state captured by snapshot %d (%d bytes); %s", len(got), im.Renames, len(want), where), map[string]any{"rerun": true, "part": "silences-crash", "desc": where})
 			}
 			R.AddKey(fmt.Sprint(im.Kind, im.Renames, len(names)))
 			// continuation on a subset (every 5th image and every image with a leftover temp file at a snapshot boundary)
 			if len(im.Files) > 1 && R.NViolations == 0 && (ctr%5 == 0 || im.Kind == "kill") {
 				R.Transitions++
 				if ok, d := c11Continue(t, im.Files); !ok {
-					R.Violate("leftover-file-breaks-later-snapshot", fmt.Sprintf("%s; crash image: %s", d, where), map[string]any{"part": "silences-crash", "desc": where})
+					R.Violate("leftover-file-breaks-later-snapshot", fmt.Sprintf("%s; crash image: %s", d, where), map[string]any{"rerun": true, "part": "silences-crash", "desc": where})
 				}
 			}
 		})
@@ -231,7 +231,7 @@ func TestVerifC11Silences(t *testing.T) {
 		snap := h.final[c11Path]
 		full, _, _ := c11Load(map[string][]byte{c11Path: snap})
 		if full != h.states[3] {
-			R.Violate("round-trip-differs", "snapshot -> load does not reproduce the state", map[string]any{"part": "silences-loader"})
+			R.Violate("round-trip-differs", "snapshot -> load does not reproduce the state", map[string]any{"rerun": true, "part": "silences-loader"})
 		}
 		// record boundaries
 		st, err := decodeState(bytes.NewReader(snap))
@@ -248,14 +248,14 @@ func TestVerifC11Silences(t *testing.T) {
 				got, derr = decodeState(bytes.NewReader(snap[:i]))
 			}()
 			if pan != nil {
-				R.Violate("loader-panics", fmt.Sprintf("prefix of %d bytes: %v", i, pan), map[string]any{"part": "silences-loader", "prefix": i})
+				R.Violate("loader-panics", fmt.Sprintf("prefix of %d bytes: %v", i, pan), map[string]any{"rerun": true, "part": "silences-loader", "prefix": i})
 				continue
 			}
 			if derr == nil {
 				// must be exactly the records wholly contained in the prefix
 				for id, ms := range got {
 					if !proto.Equal(ms, st[id]) {
-						R.Violate("partial-record-accepted", fmt.Sprintf("prefix of %d bytes decodes silence %s differently from the full snapshot", i, id), map[string]any{"part": "silences-loader", "prefix": i})
+						R.Violate("partial-record-accepted", fmt.Sprintf("prefix of %d bytes decodes silence %s differently from the full snapshot", i, id), map[string]any{"rerun": true, "part": "silences-loader", "prefix": i})
 					}
 				}
 				R.AddKey(fmt.Sprint("ok", len(got)))
@@ -274,7 +274,7 @@ func TestVerifC11Silences(t *testing.T) {
 					_, _, pan = c11Load(map[string][]byte{c11Path: mut})
 				}()
 				if pan != nil {
-					R.Violate("loader-panics", fmt.Sprintf("byte %d replaced by %#x: %v", i, sub, pan), map[string]any{"part": "silences-loader", "byte": i})
+					R.Violate("loader-panics", fmt.Sprintf("byte %d replaced by %#x: %v", i, sub, pan), map[string]any{"rerun": true, "part": "silences-loader", "byte": i})
 				}
 			}
 		}
@@ -292,11 +292,11 @@ func TestVerifC11Silences(t *testing.T) {
 		vfs.Install(nil)
 		R.Executions++
 		if err != nil {
-			R.Violate("legacy-snapshot-rejected", err.Error(), map[string]any{"part": "silences-loader"})
+			R.Violate("legacy-snapshot-rejected", err.Error(), map[string]any{"rerun": true, "part": "silences-loader"})
 		} else {
 			sil := s.st["legacy"].Silence
 			if len(sil.MatcherSets) != 1 || len(sil.MatcherSets[0].Matchers) != 1 || sil.Comment != "old style" || sil.CreatedBy != "me" {
-				R.Violate("legacy-snapshot-not-upgraded", fmt.Sprint(sil), map[string]any{"part": "silences-loader"})
+				R.Violate("legacy-snapshot-not-upgraded", fmt.Sprint(sil), map[string]any{"rerun": true, "part": "silences-loader"})
 			}
 		}
 		R.Transitions = R.Executions
